@@ -45,6 +45,18 @@ def foreign_job(rng, deep=False):
     fl = [e["path"] for e in entries if not e["dir"]]
     if fl:
         after.append({"op": "rename", "name": "/" + fl[0], "name2": "/zz-new/moved"})
+    # the archive's own directories: move one with everything below it, remove an empty one, remove one recursively
+    dl = [e["path"] for e in entries if e["dir"] and e["path"] and "/" not in e["path"]]
+    moved_file = fl[0] if fl else None
+    kids = lambda d: [e["path"] for e in entries if e["path"].startswith(d + "/") and e["path"] != moved_file]
+    if dl:
+        after.append({"op": "rename", "name": "/" + dl[0], "name2": "/zz-new/dirmoved"})
+    empties = [x for x in dl[1:] if not kids(x)]
+    if empties:
+        after.append({"op": "remove", "name": "/" + empties[0]})
+    rest = [x for x in dl[1:] if x not in empties[:1]]
+    if rest:
+        after.append({"op": "removeall", "name": "/" + rest[0]})
     return {"config": {"rs": rng.choice([1, 3, 20]), "cache": "file"}, "blobs": blobs, "format": fmt, "style": style, "entries": entries, "spell": spell, "after": after}
 
 
@@ -90,6 +102,27 @@ def expected_tree(job, extra=()):
         if e["path"] == "":
             continue
         exp["/" + e["path"]] = ("d", 0) if e["dir"] else ("f", blobs[e["blob"]]["len"], ((blobs[e["blob"]]["seed"], 0, blobs[e["blob"]]["len"]),) if blobs[e["blob"]]["len"] else ())
+    return exp
+
+
+def apply_after(exp, job):
+    """the expected tree after the job's further calls (all of them are expected to succeed)"""
+    exp = dict(exp)
+    bl = job["blobs"]
+    for c in job["after"]:
+        n = c["name"]
+        if c["op"] == "mkdir":
+            exp[n] = ("d", 0)
+        elif c["op"] == "createfile":
+            b = bl[c["blob"]]
+            exp[n] = ("f", b["len"], ((b["seed"], 0, b["len"]),) if b["len"] else ())
+        elif c["op"] == "rename":
+            m = c["name2"]
+            for p in [p for p in exp if p == n or p.startswith(n + "/")]:
+                exp[m + p[len(n):]] = exp.pop(p)
+        elif c["op"] in ("remove", "removeall"):
+            for p in [p for p in exp if p == n or p.startswith(n + "/")]:
+                exp.pop(p)
     return exp
 
 
@@ -146,6 +179,10 @@ def c17_oracle(d):
                 fails.append(dict(kind="extension-does-not-survive-rebuild", detail=diff[:3]))
             if "/zz-new/x" not in got2:
                 fails.append(dict(kind="added-file-not-visible", detail=sorted(got2)[:6]))
+            exp2 = apply_after(exp, job)
+            if got2 != exp2:
+                diff = [(p, exp2.get(p), got2.get(p)) for p in sorted(set(exp2) | set(got2)) if exp2.get(p) != got2.get(p)]
+                fails.append(dict(kind="tree-after-further-calls-differs", detail=diff[:3]))
     return fails
 
 
